@@ -15,4 +15,5 @@ else
 fi
 [ "$1" = "--" ] && shift
 git -C "$WT" diff --stat | tail -1
-SNAX_REPO="$WT" "$@"
+# evidence of mutant runs must not overwrite the evidence of /repo
+VERIF_EVIDENCE_DIR="${VERIF_EVIDENCE_DIR:-/tmp/mutant-evidence}" SNAX_REPO="$WT" "$@"
